@@ -160,6 +160,8 @@ type alphSim struct {
 	sameRel  int
 	lastRelT time.Duration
 	aborting bool
+	inRound  bool
+	round    int
 	reqCount map[string]int
 
 	watcher                 *Watcher
@@ -285,8 +287,8 @@ func (s *alphSim) makeEvent(kind, level, variant int, seq uint64) *simEvent {
 		tok := mk32(0x50, 0)
 		meta := s.tokens[tok.ToHex()]
 		if kind == 5 {
-			tok = mk32(byte(0x60+variant%12), 0)
-			meta = &tokenMeta{symbol: "BAD", name: "Bad token", decimals: 8, failMode: 1 + variant%12}
+			tok = mk32(byte(0x60+variant%13), 0)
+			meta = &tokenMeta{symbol: "BAD", name: "Bad token", decimals: 8, failMode: 1 + variant%13}
 			s.tokens[tok.ToHex()] = meta
 			if variant%3 != 0 {
 				e.sender = foreignID // anyone can publish an attestation-shaped message
@@ -302,7 +304,7 @@ func (s *alphSim) makeEvent(kind, level, variant int, seq uint64) *simEvent {
 		}
 		e.payload = attestPayload(tok, dec, meta.symbol, meta.name)
 		e.isAttest, e.isTransfer = true, false
-		e.attestOK = kind == 1
+		e.attestOK = kind == 1 || (kind == 5 && meta.failMode == 13) // a slow answer is still a correct one
 		payloadV = bvec(e.payload)
 		senderB = e.sender[:]
 	case 3:
@@ -378,22 +380,38 @@ func (s *alphSim) makeEvent(kind, level, variant int, seq uint64) *simEvent {
 	return e
 }
 
-func (s *alphSim) emit(kind, level, variant int) *simTx {
+// emit mines one new block holding the event (and `more` further token-bridge messages with other
+// consistency levels, each in its own transaction of the same block).
+func (s *alphSim) emit(kind, level, variant, more int) *simTx {
 	s.mu.Lock()
 	defer s.mu.Unlock()
-	seq := uint64(len(s.txs))
-	tx := &simTx{id: hex.EncodeToString(crypto.Keccak256([]byte("tx"), []byte(strconv.Itoa(len(s.txs)))))}
-	if kind == 7 {
-		tx.events = append(tx.events, s.makeEvent(0, level, 0, seq), s.makeEvent(7, level, variant, seq))
-	} else {
-		tx.events = append(tx.events, s.makeEvent(kind, level, variant, seq))
-	}
-	s.txs = append(s.txs, tx)
 	b := s.newBlock(int32(len(s.main)))
 	s.main = append(s.main, b)
-	s.includeTx(tx, b)
+	var first *simTx
+	for k := 0; k <= more; k++ {
+		seq := uint64(len(s.txs))
+		tx := &simTx{id: hex.EncodeToString(crypto.Keccak256([]byte("tx"), []byte(strconv.Itoa(len(s.txs)))))}
+		switch {
+		case k > 0:
+			kk := 0
+			if k%3 == 2 {
+				kk = 1 // a matching attestation: on mainnet it confirms long before a transfer of the same block
+			}
+			tx.events = append(tx.events, s.makeEvent(kk, (level+3*k)%64, variant+k, seq))
+			s.stats.Fault("several-messages-in-one-block")
+		case kind == 7:
+			tx.events = append(tx.events, s.makeEvent(0, level, 0, seq), s.makeEvent(7, level, variant, seq))
+		default:
+			tx.events = append(tx.events, s.makeEvent(kind, level, variant, seq))
+		}
+		s.txs = append(s.txs, tx)
+		s.includeTx(tx, b)
+		if first == nil {
+			first = tx
+		}
+	}
 	s.version++
-	return tx
+	return first
 }
 
 func (s *alphSim) reorg(depth, mode int) {
@@ -470,6 +488,15 @@ func (s *alphSim) RoundTrip(req *http.Request) (*http.Response, error) {
 		if r == nil {
 			<-req.Context().Done() // simulated stall beyond the caller's deadline
 			return nil, req.Context().Err()
+		}
+		if d := r.Header.Get("X-Verif-Delay-Ms"); d != "" {
+			ms, _ := strconv.Atoi(d)
+			r.Header.Del("X-Verif-Delay-Ms")
+			select {
+			case <-time.After(time.Duration(ms) * time.Millisecond):
+			case <-req.Context().Done():
+				return nil, req.Context().Err()
+			}
 		}
 		return r, nil
 	case <-req.Context().Done():
@@ -641,6 +668,12 @@ func (s *alphSim) answer(p *parkedReq) *http.Response {
 			if id, err := ToContractId(mc.Calls[0].Address); err == nil {
 				if m := s.tokens[id.ToHex()]; m != nil {
 					switch m.failMode {
+					case 13:
+						// slow but successful (each call well inside the client's 10 s deadline)
+						s.stats.Fault("token-multicall-slow")
+						r := jsonResp(req, 200, map[string]interface{}{"results": results})
+						r.Header.Set("X-Verif-Delay-Ms", "3700")
+						return r
 					case 8:
 						s.stats.Fault("token-multicall-two-results")
 						results = results[:2]
@@ -747,15 +780,31 @@ func (s *alphSim) pick(only string) *parkedReq {
 	if len(cand) == 0 {
 		return nil
 	}
-	// rule D6: the event handler finishes its pass before the fetchers make progress
+	// rule D6: while the event handler is inside a confirmation round (it has a request parked), at
+	// most ONE of the two fetchers may make progress - otherwise both could end up blocked on their
+	// hand-over channels and Go's select would pick between them at random. Which one (events,
+	// height or none) is drawn per round from the seed.
 	var he []*parkedReq
 	for _, p := range cand {
 		if p.caller == "handleEvents" {
 			he = append(he, p)
 		}
 	}
+	if len(he) > 0 && !s.inRound {
+		s.inRound = true
+		s.round++
+	} else if len(he) == 0 {
+		s.inRound = false
+	}
 	if len(he) > 0 && only == "" {
-		cand = he
+		allowed := []string{"fetchEvents", "fetchHeight", ""}[simkit.Hash64(s.prog.Seed, "round", strconv.Itoa(s.round))%3]
+		var c2 []*parkedReq
+		for _, p := range cand {
+			if p.caller == "handleEvents" || (allowed != "" && p.caller == allowed) {
+				c2 = append(c2, p)
+			}
+		}
+		cand = c2
 	}
 	sort.Slice(cand, func(i, j int) bool {
 		if cand[i].caller != cand[j].caller {
@@ -804,7 +853,7 @@ func (s *alphSim) pump(until time.Duration) {
 		if p := s.pick(""); p != nil {
 			s.release(p)
 			guard++
-			if guard > 200000 {
+			if guard > 3000000 {
 				s.res.HarnessErr = "pump: action cap reached"
 				s.aborting = true
 				return
@@ -1093,7 +1142,7 @@ func (s *alphSim) runStep(st simkit.Step) {
 		s.mu.Unlock()
 	case "ev":
 		s.markLiveIfPolling()
-		s.emit(int(st.A)%8, int(st.B)%256, int(st.C))
+		s.emit(int(st.A)%8, int(st.B)%256, int(st.C), int(st.D)%4)
 	case "adv":
 		d := time.Duration(st.A) * time.Millisecond
 		if d <= 0 {
@@ -1283,7 +1332,11 @@ func (alphHarness) Gen(seed uint64, prop, tier string) *simkit.Program {
 	for i := 0; i < n; i++ {
 		switch r.Pick(8, 4, 5, 2, 2, 2, 3) {
 		case 0:
-			add("ev", int64(r.Pick(kindW...)), level(), int64(r.Intn(48)), 0)
+			more := int64(0)
+			if r.P(0.25) {
+				more = int64(r.Range(1, 3))
+			}
+			add("ev", int64(r.Pick(kindW...)), level(), int64(r.Intn(48)), more)
 		case 1:
 			add("blk", int64(r.Range(1, 12)), 0, 0, 0)
 		case 2:
@@ -1314,6 +1367,15 @@ func (alphHarness) Gen(seed uint64, prop, tier string) *simkit.Program {
 				add("adv", int64(r.Range(1, 40))*sec, 0, 0, 0)
 			}
 		}
+	}
+	if prop == "C09" && r.P(0.15) {
+		// one page with several attestation-shaped events of foreign contracts whose metadata calls
+		// are slow (each well within the per-request deadline), followed by a genuine attestation
+		for i := 0; i < 3; i++ {
+			add("ev", 5, level(), 25, 0)
+		}
+		add("ev", 1, level(), int64(r.Intn(48)), 0)
+		add("adv", 3*p.Cfg["poll_ms"]+15000, 0, 0, 0)
 	}
 	if prop == "C08" && r.P(0.3) {
 		// an event that has its block confirmations but still waits out its confirmation time, while
